@@ -244,6 +244,22 @@ def _run(V_, work, tier):
                        {"schema": text_, "value": rv(v), "real": got, "declared": want, "msg": (ev.get("err") or {}).get("msg")})
         if i % 97 == 5:
             V_.sample({"schema": text_, "verdicts": {rv(VALUES[j]): model[(i, j + 1)]["verdict"] for j in (2, 10, 15, 25)}})
+    # ---- leaf law: numeric bounds on integers beyond 2^53 (TLC's integers do not reach them; the specification's rule -
+    # a bound compares NUMBERS - is applied with exact integers here): neighbours that float64 cannot tell apart
+    B53 = 1 << 53
+    big = []
+    for op, f in (("gt", lambda v, b: v > b), ("gte", lambda v, b: v >= b), ("lt", lambda v, b: v < b), ("lte", lambda v, b: v <= b)):
+        for b in (B53, B53 + 1, (1 << 62) + 1, -(B53 + 1)):
+            for v in (b - 1, b, b + 1):
+                big.append((op, b, v, f(v, b)))
+    bres = driver_json(binary, ["run"], [{"id": i, "seq": ["(s:validate (s:make-validator \"t\" s:int (s:%s %d)) %d)" % (op, b, v)], "cfg": {"nocount": True}} for i, (op, b, v, w) in enumerate(big)])
+    for r in bres:
+        op, b, v, want = big[r["id"]]
+        got = classify(r["runs"][0]["evals"][0])
+        if (got == "ok") != want:
+            V_.add(None, "leaf law: (s:validate (s:make-validator \"t\" s:int (s:%s %d)) %d) gives %s, the numbers compare %s" % (op, b, v, got, "within the bound" if want else "outside the bound"),
+                   {"op": op, "bound": b, "value": v})
+    V_.coverage["big_integer_bound_cases"] = len(big)
     V_.coverage["schemas"] = len(schemas)
     V_.coverage["malformed_schemas"] = nbad
     V_.coverage["traces_validated_against_impl"] = len(schemas) * len(VALUES)
